@@ -1,1 +1,2 @@
-"""A-MPL model (filled in for C18)"""
+import matplotlib.patches as patches
+import matplotlib.path as path
